@@ -53,6 +53,7 @@ type xfer interface {
 	ReadVal(k []byte) (interface{}, error)
 	WDR() cache.WalkDumpRestorer
 	ExpireAll()
+	DeleteAll()
 }
 
 type xent struct {
@@ -92,6 +93,7 @@ func (x xSM) Dump(w io.Writer) (int, error)                    { return x.c.Dump
 func (x xSM) Restore(r io.Reader) (int, error)                 { return x.c.Restore(r) }
 func (x xSM) ReadVal(k []byte) (interface{}, error)            { return x.c.Read(context.Background(), k) }
 func (x xSM) ExpireAll()                                       { x.c.ExpireAll(context.Background()) }
+func (x xSM) DeleteAll()                                       { x.c.DeleteAll(context.Background()) }
 func (x xSM) WDR() cache.WalkDumpRestorer                      { return x.c }
 func (x xSY) Put(ctx context.Context, k []byte, v interface{}) { _ = x.c.Write(ctx, k, v) }
 func (x xSY) Snapshot() (map[string]xent, []string, int)       { return snapshotIface(x.c) }
@@ -99,12 +101,14 @@ func (x xSY) Dump(w io.Writer) (int, error)                    { return x.c.Dump
 func (x xSY) Restore(r io.Reader) (int, error)                 { return x.c.Restore(r) }
 func (x xSY) ReadVal(k []byte) (interface{}, error)            { return x.c.Read(context.Background(), k) }
 func (x xSY) ExpireAll()                                       { x.c.ExpireAll(context.Background()) }
+func (x xSY) DeleteAll()                                       { x.c.DeleteAll(context.Background()) }
 func (x xSY) WDR() cache.WalkDumpRestorer                      { return x.c }
 
 func (x xOF[V]) Put(ctx context.Context, k []byte, v interface{}) { _ = x.c.Write(ctx, k, v.(V)) }
 func (x xOF[V]) Dump(w io.Writer) (int, error)                    { return x.c.Dump(w) }
 func (x xOF[V]) Restore(r io.Reader) (int, error)                 { return x.c.Restore(r) }
 func (x xOF[V]) ExpireAll()                                       { x.c.ExpireAll(context.Background()) }
+func (x xOF[V]) DeleteAll()                                       { x.c.DeleteAll(context.Background()) }
 func (x xOF[V]) WDR() cache.WalkDumpRestorer                      { return x.c.WalkDumpRestorer() }
 func (x xOF[V]) ReadVal(k []byte) (interface{}, error) {
 	v, err := x.c.Read(context.Background(), k)
@@ -262,6 +266,7 @@ type c13Cell struct {
 	Hops    int    `json:"hops"`
 	Strat   int    `json:"strat,omitempty"`   // eviction strategy of all caches involved (0 = default, most expired)
 	Expired bool   `json:"expired,omitempty"` // the source is expired with ExpireAll before it is dumped
+	Reused  bool   `json:"reused,omitempty"`  // the target held other entries before and was emptied with DeleteAll
 }
 
 func (c c13Cell) id() string { js, _ := json.Marshal(c); return string(js) }
@@ -345,6 +350,19 @@ func c13Cells(tier string) []Cell {
 
 			cells = append(cells, Cell{ID: c13Cell{Src: p[0], Dst: p[1], Lens: []int{9, 0, 70}, Hops: 3, Strat: strat}.id()})
 		}
+	}
+
+	// a target that served before: it held other entries and was emptied with DeleteAll
+	for _, p := range c13Pairs {
+		for _, lens := range lenArrangements(2) {
+			if p[0] == "SY" && !sort.IntsAreSorted(lens) {
+				continue
+			}
+
+			cells = append(cells, Cell{ID: c13Cell{Src: p[0], Dst: p[1], Lens: lens, Hops: 1, Reused: true}.id()})
+		}
+
+		cells = append(cells, Cell{ID: c13Cell{Src: p[0], Dst: p[1], Lens: []int{9, 0, 70}, Hops: 3, Reused: true}.id()})
 	}
 
 	return cells
@@ -486,8 +504,28 @@ func c13One(cc c13Cell, keys [][]byte, vals []interface{}, exp []bool, perm int)
 		}
 
 		dst := newXfer(kind)
-		n, err = dst.Restore(bytes.NewReader(buf.Bytes()))
+
+		if cc.Reused {
+			for i, v := range xferValues(kind)[:2] {
+				dst.Put(ctx, []byte(fmt.Sprintf("earlier-%d", i)), v)
+			}
+
+			dst.DeleteAll()
+			ops += 3
+		}
+
+		var pv interface{}
+
+		func() {
+			defer func() { pv = recover() }()
+
+			n, err = dst.Restore(bytes.NewReader(buf.Bytes()))
+		}()
 		ops++
+
+		if pv != nil {
+			return "restore-panic", fmt.Sprintf("hop %d: Restore panicked: %v", hop, pv), ops
+		}
 
 		if err != nil {
 			return "restore-error", fmt.Sprintf("hop %d: Restore failed: %v", hop, err), ops
